@@ -389,6 +389,7 @@ func main() {
 	emitArith()
 	emitDict()
 	emitStruct()
+	emitPools()
 	// names last (interning complete)
 	var e emitter
 	e.f("/- generated by /verif/extract from %s — do not edit -/\nnamespace Gen\n", repo)
